@@ -1,7 +1,7 @@
 """C08 — README.txt documentation is current after every operation."""
 import random
 
-from .. import gens, hist_array, hist_ragged
+from .. import gens, hist_array, hist_ragged, hist_stale
 from ..common import Result
 
 PID = 'C08'
@@ -45,11 +45,19 @@ def cases(tier, seed):
     for c in hist_ragged.history_cases(PID, tier, seed, 200, 3000):
         c['kind'] = 'ragged'
         yield c
+    # the array (data or metadata) is changed through a second handle / by path behind a long-lived handle, which then
+    # performs an operation that rewrites, or should rewrite, the README
+    for c in hist_stale.array_cases(random.Random(f'C08:{seed}:stale'), 300 if tier == 'quick' else 4000, seed):
+        c['kind'] = 'stale'
+        yield c
 
 
 def run_case(case, env):
     res = Result()
-    if case['kind'] == 'array':
+    if case['kind'] == 'stale':
+        hist_stale.run_array(env, res, case, want_readme=True)
+        res.sig = hist_stale.sig_of(case)
+    elif case['kind'] == 'array':
         hist_array.run(env, res, case, {'readme'})
         res.sig = hist_array.sig_of(case)
     else:
